@@ -96,13 +96,18 @@ impl AsyncFileSystem for AsyncOverlayFS {
             return Err(VfsErrorKind::FileNotFound.into());
         }
         let mut entries = HashSet::<String>::new();
+        // the first layer that has the entry serves it (and reports its own error if it is not a directory);
+        // below it only directories are merged, a file of the same name there is shadowed
+        let mut shadowed = false;
         for layer in &self.layers {
             let layer_path = layer.join(actual_path)?;
-            if layer_path.exists().await? {
-                let mut path_stream = layer_path.read_dir().await?;
-                while let Some(path) = path_stream.next().await {
-                    entries.insert(path.filename());
-                }
+            if !layer_path.exists().await? || (shadowed && !layer_path.is_dir().await?) {
+                continue;
+            }
+            shadowed = true;
+            let mut path_stream = layer_path.read_dir().await?;
+            while let Some(path) = path_stream.next().await {
+                entries.insert(path.filename());
             }
         }
         // remove whiteout entries that have been removed
